@@ -2,6 +2,7 @@
 leaves open, z3 CLI as an optional cross-check. Verdicts: unsat = discharged, sat = refuted,
 unknown = undecided (never reported as a violation)."""
 import os
+import sys
 import re
 import subprocess
 import tempfile
@@ -22,7 +23,13 @@ def to_smt2(premises, goal):
     if 'py_replace_all' in txt:
         txt = re.sub(r'\(declare-fun py_replace_all \(String String String\) String\)\n', '', txt)
         txt = txt.replace('py_replace_all', 'str.replace_all')
-    return '(set-logic ALL)\n' + txt
+    # z3-internal names of seq.nth after simplification (in-range / out-of-range split)
+    if 'seq.nth_' in txt:
+        txt = re.sub(r'\(declare-fun seq\.nth_[iu][^\n]*\n', '', txt)
+        txt = txt.replace('seq.nth_i', 'seq.nth').replace('seq.nth_u', 'seq.nth')
+    # no (set-logic ...): z3 5.1 answered `sat` on an unsat string problem when given
+    # (set-logic ALL); cvc5 only prints a warning without it
+    return txt
 
 
 def run_cvc5(txt, timeout_s, models=False):
@@ -37,6 +44,11 @@ def run_cvc5(txt, timeout_s, models=False):
                                timeout=timeout_s + 5)
             out = p.stdout.strip().splitlines()
             res = out[0].strip() if out else 'unknown'
+            if res.startswith('(error'):
+                sys.stderr.write('cvc5 rejected a query: %s\n' % res[:300])
+                if os.environ.get('PYVC_KEEP_BAD'):
+                    import shutil
+                    shutil.copy(path, os.environ['PYVC_KEEP_BAD'])
         except subprocess.TimeoutExpired:
             res = 'unknown'
         if res not in ('sat', 'unsat', 'unknown'):
@@ -53,10 +65,12 @@ def run_z3cli(txt, timeout_s):
     try:
         t0 = time.time()
         try:
-            p = subprocess.run([Z3CLI, '-T:%d' % int(timeout_s), path], capture_output=True,
-                               text=True, timeout=timeout_s + 5)
+            p = subprocess.run([Z3CLI, '-T:%d' % int(timeout_s), 'model_validate=true', path],
+                               capture_output=True, text=True, timeout=timeout_s + 5)
             out = p.stdout.strip().splitlines()
             res = out[0].strip() if out else 'unknown'
+            if res == 'sat' and 'invalid model' in p.stdout:
+                res = 'unknown'     # z3 produced a model that does not satisfy the assertions
         except subprocess.TimeoutExpired:
             res = 'unknown'
         if res not in ('sat', 'unsat', 'unknown'):
@@ -117,6 +131,18 @@ def solve_quick(o, z3_ms=1500, want_model=True, on_model=None):
         res['status'] = 'unsat'
         return res
     txt = to_smt2(o.premises, o.goal)
+    if r == z3.sat:
+        # validate the model against the premises (quantified premises stay undecided)
+        m = s.model()
+        for p in list(o.premises) + [z3.Not(o.goal)]:
+            try:
+                v = m.eval(p, model_completion=True)
+            except z3.Z3Exception:
+                continue
+            if z3.is_false(v):
+                res['invalid_model'] = True
+                r = z3.unknown
+                break
     if r == z3.sat and 'str.replace_all' not in txt:
         res['status'] = 'sat'
         if want_model:
@@ -140,8 +166,16 @@ def solve_text(args):
     if len(args) > 4 and args[4]:
         # not yet tried by z3: a short z3 attempt first
         r0, t0_ = run_z3cli(txt, 5)
-        if r0 in ('sat', 'unsat') and 'str.replace_all' not in txt or r0 == 'unsat':
+        if r0 == 'unsat':
             return {'status': r0, 'backend': 'z3-5.1(cli)', 'time_s': t0_}
+        if r0 == 'sat':
+            # a refutation must be confirmed by the other solver family
+            r1, t1 = run_cvc5(txt, cvc5_s)
+            if r1 == 'unsat':
+                return {'status': 'disagree', 'backend': 'z3cli=sat,cvc5=unsat',
+                        'time_s': t0_ + t1}
+            return {'status': 'sat', 'backend': 'z3-5.1(cli)' + ('+cvc5' if r1 == 'sat' else ''),
+                    'time_s': t0_ + t1}
     r1, t1 = run_cvc5(txt, cvc5_s)
     out = {'status': 'unknown', 'backend': 'cvc5-1.0.3', 'time_s': t1}
     if r1 in ('sat', 'unsat'):
